@@ -1582,8 +1582,9 @@ impl<'a> Runtime<'a> {
             return Value::Str(ArenaCow::Owned(result));
         }
 
-        if matches!(val, Value::Array(_)) {
-            // Arrays promoted to persistent via pool.
+        if matches!(val, Value::Array(_) | Value::Host(_)) {
+            // Arrays and host values (whose handles live on the frame) are promoted to
+            // persistent before the frame is reset.
             let promoted = val.promote(&self.pool, self.frame);
             unsafe { self.frame.reset(frame_offset) };
             return promoted;
